@@ -162,7 +162,8 @@ def dropHolder (hs : List (Nat × Nat)) (i : Nat) : List (Nat × Nat) := hs.filt
 inductive Ev where
   | tick (d : Nat)                     -- time passes
   | lockTry (i ttl : Nat)              -- one iteration of `Lock`'s loop: `KV.Acquire`, on success `startLeaseRenewal`
-  | renew (i ttl : Nat)                -- `renewLeaseOnce` (ticker at ttl/4, or `RenewLockLease`)
+  | renew (i ttl : Nat)                -- `renewLeaseOnce` from the ticker (every ttl/4)
+  | renewLock (i dur ttl : Nat)        -- `RenewLockLease(key, dur)` of an instance configured with lease TTL `ttl`
   | unlock (i : Nat)                   -- `Unlock`: LoadAndDelete the holder, `KV.Release(token)`
   deriving Repr
 
@@ -207,6 +208,11 @@ def lstep (s : LockSt) : Ev → LockSt × LOut
   | .tick d => ({ s with now := s.now + d }, .none)
   | .lockTry i ttl => doLockTry s i ttl
   | .renew i ttl => doRenew s i ttl
+  -- `RenewLockLease` ignores the caller's `leaseDuration`: it looks the holder up (`not a lease holder` when
+  -- absent) and runs the SAME `renewLeaseOnce` as the ticker — the KV is asked for the configured TTL and the
+  -- token it returns REPLACES the remembered one (`atomic.StoreUint64(&l.token, next)`), so that the next
+  -- ticker renewal and the final `Unlock` present the current token
+  | .renewLock i _dur ttl => doRenew s i ttl
   | .unlock i => doUnlock s i
 
 def lrun (s : LockSt) : List Ev → LockSt
